@@ -606,6 +606,21 @@ func (e *Env) sel(x ESel) Val {
 			}
 		}
 	}
+	// ghost field of a struct-typed local that lives in memory (e.g. a strings.Builder value whose
+	// methods take its address): read it at the variable's allocation
+	if id, ok := x.X.(EIdent); ok && e.act != nil {
+		if _, shadow := e.vars[id.Name]; !shadow {
+			if lv, isLocal := e.act.lookupLocal(id.Name, e.at, e.atIdx, e.phiOv); isLocal && lv.S == "$addr" && lv.G != nil {
+				if pt, ok := lv.G.Underlying().(*types.Pointer); ok {
+					if nt, ok := types.Unalias(pt.Elem()).(*types.Named); ok {
+						if _, isGhost := e.g.w.ghostFields[namedKey(nt)+"."+x.Name]; isGhost {
+							return e.g.selectField(e.st, Val{T: lv.T, S: "Ref", G: lv.G}, x.Name, func(f string, a ...interface{}) { e.fail(f, a...) })
+						}
+					}
+				}
+			}
+		}
+	}
 	b := e.tr(x.X)
 	return e.g.selectField(e.st, b, x.Name, func(f string, a ...interface{}) { e.fail(f, a...) })
 }
